@@ -497,6 +497,43 @@ func opJson(c Case, r Result) {
 	r["json"] = outs
 }
 
+// jsonfiles: {"op":"jsonfiles","src_hex":..,"files":[["name","hexcontent"],...],"search":["spelling",...]}
+// RunFiles (mode NOTHING) over path SPELLINGS appended verbatim to the scratch directory ("./a.txt", "sub//a.txt", "sub/"),
+// reports both JSON renderings and the in-memory Filename of every match
+func opJsonFiles(c Case, r Result) {
+	src := bytesArg(c, "src")
+	cp := compileSrc(src, r)
+	if cp == nil {
+		return
+	}
+	dir, err := os.MkdirTemp("", "vh-jf-")
+	if err != nil {
+		panic(err)
+	}
+	defer os.RemoveAll(dir)
+	for _, f := range c["files"].([]any) {
+		pair := f.([]any)
+		b, _ := hex.DecodeString(pair[1].(string))
+		p := filepath.Join(dir, pair[0].(string))
+		os.MkdirAll(filepath.Dir(p), 0o755)
+		if err := os.WriteFile(p, b, 0o644); err != nil {
+			panic(err)
+		}
+	}
+	names := []string{}
+	for _, n := range c["search"].([]any) {
+		names = append(names, dir+"/"+n.(string))
+	}
+	ms := engine.RunFiles(cp.bc, names, engine.NOTHING, false)
+	fnames := []string{}
+	for i := range ms {
+		fnames = append(fnames, hex.EncodeToString([]byte(ms[i].Filename)))
+	}
+	r["filenames_hex"] = fnames
+	r["dir"] = dir
+	r["json"] = []string{hex.EncodeToString([]byte(ms.Json())), hex.EncodeToString([]byte(ms.FormattedJson()))}
+}
+
 // lex: {"op":"lex","src_hex":..} -> the token stream of the lexer (type, lexeme) or the lex error
 func opLex(c Case, r Result) {
 	src := bytesArg(c, "src")
@@ -559,16 +596,17 @@ func opCorpus(c Case, r Result) {
 }
 
 var ops = map[string]func(Case, Result){
-	"corpus":  opCorpus,
-	"lex":     opLex,
-	"json":    opJson,
-	"conc":    opConc,
-	"glob":    opGlob,
-	"reader":  opReader,
-	"runboth": opRunBoth,
-	"hist":  opHist,
-	"e2e":   opE2E,
-	"files": opFiles,
+	"corpus":    opCorpus,
+	"lex":       opLex,
+	"json":      opJson,
+	"jsonfiles": opJsonFiles,
+	"conc":      opConc,
+	"glob":      opGlob,
+	"reader":    opReader,
+	"runboth":   opRunBoth,
+	"hist":      opHist,
+	"e2e":       opE2E,
+	"files":     opFiles,
 }
 
 func runCase(c Case) (r Result) {
